@@ -123,6 +123,7 @@ Definition g_datetime := lit "datetime".
 Definition g_tuple := lit "tuple".
 Definition g_dict := lit "dict".
 Definition g_row := lit "Row".
+Definition g_namedtuple := lit "namedtuple".
 
 Fixpoint strs_of_vals (l : list val) : option (list str) :=
   match l with
@@ -169,7 +170,7 @@ Fixpoint pyval_of_val (v : val) : option pyval :=
               end) l)
       else None
   | VTup [VStr tag; VList names; VList vals] =>
-      if str_eqb tag g_row then
+      if str_eqb tag g_row || str_eqb tag g_namedtuple then      (* a top-level namedtuple: modelled as a Row *)
         match strs_of_vals names, many vals with
         | Some ns, Some vs => Some (PRow ns vs)
         | _, _ => None
@@ -216,6 +217,8 @@ Definition k_verify := lit "verify".
 Definition k_create := lit "create".
 Definition k_create_s := lit "create_s".
 Definition k_create_rdd := lit "create_rdd".
+Definition k_create_named := lit "create_named".
+Definition k_rdd := lit "rdd".
 Definition k_row := lit "row".
 
 Definition run_more (kind : str) (args : list val) : val :=
@@ -269,6 +272,18 @@ Definition run_more (kind : str) (args : list val) : val :=
             | Err e => VErr (exn_name e)
             end
         | None => VBad
+        end
+    | _ => VBad
+    end
+  else if str_eqb kind k_create_named then
+    match args with
+    | VList rows :: VList names :: VStr path :: _ =>
+        match pyvals_of_vals rows, strs_of_vals names with
+        | Some rs, Some ns =>
+            val_of_res (fun p => VTup [val_of_dtype (fst p); val_of_rows (snd p)])
+                       (if str_eqb path k_rdd then create_named_rdd local_offset ns rs
+                        else create_named local_offset ns rs)
+        | _, _ => VBad
         end
     | _ => VBad
     end
